@@ -21,6 +21,9 @@ pub struct P {
     pub rounds: usize,
     pub rng_seed: u64,
     pub notify_down: bool,
+    /// max_packet_size (small values make Feeds truncate mid-round)
+    #[serde(default)]
+    pub mps: usize,
 }
 
 fn fail(vs: &mut Vec<Violation>, d: &Driver, tag: &str, detail: String) {
@@ -140,6 +143,13 @@ fn round(d: &mut Driver, s: &mut Stream, p: &P, vs: &mut Vec<Violation>, stats: 
                             stats.inc("c12_new_member_mid_round");
                         }
                     }
+                }
+                10 => {
+                    // somebody asks to join mid-round: the Feed reply shares buffers with the probe machinery
+                    let who = if others.is_empty() || s.chance(1, 2) { SimId::new(30 + s.below(6) as u16, 1) } else { *s.pick(&others) };
+                    let inc = d.obs.slot(who.addr).map(|m| m.incarnation()).unwrap_or(0);
+                    d.deliver(who, inc, Message::Announce, &[]);
+                    stats.inc("c12_announce_mid_round");
                 }
                 8 if phase == 1 && s.chance(1, 3) => {
                     // abort: identity change (the instance reconnects on the next input)
@@ -279,6 +289,9 @@ pub fn run_params(p: &P, seed: u64) -> RunOut {
     cfg.num_indirect_probes = NonZeroUsize::new(p.k).unwrap();
     cfg.notify_down_members = p.notify_down;
     cfg.remove_down_after = std::time::Duration::from_secs(100_000);
+    if p.mps >= 24 {
+        cfg.max_packet_size = NonZeroUsize::new(p.mps).unwrap();
+    }
     let own = SimId::new(OWN_ADDR, 1);
     let mut d = Driver::new(Setup { id: own, cfg, codec: CodecKind::Wire, policy: Policy { renew: RenewMode::Never, mask: 0, var_ids: false }, hcfg: HandlerCfg::default_cfg(), rng_seed: p.rng_seed });
     let members: Vec<Member<SimId>> = (0..p.members).map(|i| Member::alive(SimId::new(2 + i as u16, 1))).collect();
@@ -310,7 +323,7 @@ impl Scenario for Rounds {
     }
     fn gen(&self, seed: u64, tier: Tier, _i: u64) -> Case {
         let mut s = Stream::new(seed, "c12-params");
-        let p = P { members: s.range(1, 6) as usize, k: s.range(1, 3) as usize, rounds: match tier { Tier::Quick => s.range(2, 10), Tier::Thorough => s.range(2, 30) } as usize, rng_seed: s.next(), notify_down: s.chance(1, 2) };
+        let p = P { members: s.range(1, 6) as usize, k: s.range(1, 3) as usize, rounds: match tier { Tier::Quick => s.range(2, 10), Tier::Thorough => s.range(2, 30) } as usize, rng_seed: s.next(), notify_down: s.chance(1, 2), mps: *s.pick(&[1400usize, 1400, 30, 36, 45, 60, 90]) };
         Case { property: "C12".into(), scenario: self.name().into(), seed, params: serde_json::to_value(p).unwrap(), steps: vec![], explicit: false }
     }
     fn run(&self, case: &Case) -> RunOut {
